@@ -347,15 +347,15 @@ impl Node {
         }
     }
 
+    /// `another_root`: root node of the `Ohkami` to merge, or (recursively)
+    /// a param child of it merged into the param child `self` already is
     fn merge_here(&mut self, another_root: Node, allow_override_handler: bool) -> Result<(), String> {
         let Node {
-            pattern:  None, /* another_root must be a root node and has pattern `None` */
+            pattern:  _,
             fangses:  another_root_fangses,
             handler:  another_root_handler,
             children: another_root_children,
-        } = another_root else {
-            panic!("Unexpectedly called `Node::merge_here` where `another_root` is not root node")
-        };
+        } = another_root;
         
         self.append_fangs(another_root_fangses);
 
@@ -364,7 +364,12 @@ impl Node {
         }
 
         for ac in another_root_children {
-            self.append_child(ac)?
+            /* a node has at most one param child (search descends into the first
+               one only): merge a param child into the one already there */
+            match ac.pattern.clone().filter(Pattern::is_param).and_then(|p| self.machable_child_mut(p)) {
+                Some(param_child) => param_child.merge_here(ac, allow_override_handler)?,
+                None => self.append_child(ac)?
+            }
         }
 
         Ok(())
